@@ -10,7 +10,7 @@ PROP = "C10"
 LEVEL = "exploration"
 RULE = ("seeded cases: 4-12 regular files (1 byte .. multi-block) with modes drawn from all 12 permission bits (every special-bit "
         "combination x sampled rwx), mtimes past / future / with nanoseconds, 0-4 user xattrs, uid/gid pairs (the harness is root, "
-        "fchown really works) x flag combinations of --no-perms / --no-timestamps / --ownership x umask {0, 022, 077} x fresh or "
+        "fchown really works; a quarter of the plain runs instead belong to and run as uid 65534 through setpriv) x flag combinations of --no-perms / --no-timestamps / --ownership x umask {0, 022, 077} x fresh or "
         "overwritten destination (different previous mode, mtime, xattrs) x driver x {ext4, tmpfs}; multi-block files run under "
         "lifo / pct schedules so the last block finishes on an arbitrary worker. Oracle on exit 0: mode (07777), mtime_ns, user.* "
         "xattrs (subset with equal values), owner and group with no permission bit lost; with --no-perms the mode is the default "
@@ -50,7 +50,9 @@ def gen_cases(tier, seed):
                             "mode": r.choice([0o600, 0o666, 0o4755, 0o640]), "mtime_ns": 1_111_111_111_000_000_000,
                             "xattrs": {"user.old": "stale"}, "uid": r.choice([0, 777]), "gid": r.choice([0, 888])})
         sched = r.choice(["os", "os", "lifo", "pct", "role"])
-        yield {"spec": spec, "pre": pre, "flags": flags, "driver": driver, "umask": r.choice([0o022, 0o077, 0, 0o027]), "overwritten": overwritten,
+        # an ordinary user's copy: everything belongs to uid/gid 65534 and xcp runs under those ids (no privilege to fall back on)
+        unpriv = sched == "os" and "--ownership" not in flags and r.random() < 0.25
+        yield {"unpriv": unpriv, "spec": spec, "pre": pre, "flags": flags, "driver": driver, "umask": r.choice([0o022, 0o077, 0, 0o027]), "overwritten": overwritten,
                "args": ["--driver", driver, "-w", str(r.choice([0, 1, 2, 4, 8])), "--block-size", "16KB"] + flags
                        + r.choice([[], [], ["--fsync"], ["--reflink", "never"], ["--backup", "numbered"], ["--no-progress"], ["-L"], ["--gitignore"]]) + ["-r", "src", "dst"],
                "sched": sched, "sseed": r.randrange(1 << 30), "fs": "tmpfs" if r.random() < 0.25 else "ext4"}
@@ -62,10 +64,23 @@ def run_case(case):
         root = sb.root
         tree.materialize(root, case["spec"])
         tree.materialize(root, case["pre"])
+        if case.get("unpriv"):
+            for dp, dn, fn in os.walk(b(root)):
+                for n in dn + fn + [b"."]:
+                    q = os.path.join(dp, n)
+                    m_ = os.lstat(q).st_mode
+                    os.lchown(q, 65534, 65534)
+                    if not os.path.islink(q):
+                        os.chmod(q, m_ & 0o7777)      # chown cleared the set-id bits: put the requested mode back
+            tree.fix_mtimes(root, case["spec"] + case["pre"]) if hasattr(tree, "fix_mtimes") and False else None
         pre = tree.snapshot(root, content=False)
         t0 = time.time_ns()
         if case["sched"] == "os":
-            run = core.run_plain(core.xcp_argv(case["args"]), root, umask=case["umask"])
+            argv = core.xcp_argv(case["args"])
+            if case.get("unpriv"):
+                argv = ["setpriv", "--reuid", "65534", "--regid", "65534", "--clear-groups"] + argv
+                res["counters"]["unprivileged-runs"] = 1
+            run = core.run_plain(argv, root, umask=case["umask"])
             events = None
         else:
             plan = {"sched": case["sched"], "sched_seed": case["sseed"], "log_mode": "full", "umask": case["umask"], "pct_horizon": 500}
@@ -111,8 +126,8 @@ def run_case(case):
                 allowed = {0o666 & ~case["umask"]}
                 if old:
                     allowed.add(old["mode"])
-                    if owner:
-                        # the kernel clears set-ID bits of the previous mode when the owner is changed
+                    if owner or case.get("unpriv"):
+                        # the kernel clears set-ID bits of the previous mode when the owner is changed, or when an unprivileged process writes to the file
                         allowed |= {old["mode"] & ~0o6000, old["mode"] & ~0o4000, old["mode"] & ~0o2000}
                 if d["mode"] not in allowed:
                     res["viol"].append({"sig": "%s:noperms-mode" % sig0, "what": "--no-perms but destination mode is %04o (allowed: %s); %s"
@@ -127,7 +142,7 @@ def run_case(case):
             if owner:
                 if (d["uid"], d["gid"]) != (s["uid"], s["gid"]):
                     res["viol"].append({"sig": "%s:owner" % sig0, "what": "owner %d:%d != source %d:%d; %s" % (d["uid"], d["gid"], s["uid"], s["gid"], ctx)})
-            keys.add((case["driver"], ftag, sb_, bool(old), (s["uid"], s["gid"]) != (0, 0), case["fs"], case["sched"]))
+            keys.add((case["driver"], ftag, sb_, bool(old), (s["uid"], s["gid"]) != (0, 0), case["fs"], case["sched"] + ("/unprivileged" if case.get("unpriv") else "")))
         if events is not None:
             v, o = monitors.metadata_after_last_byte(events, root)
             for frag, msg in v:
